@@ -44,7 +44,7 @@ impl Check for C07 {
         "reads_compared"
     }
     fn rule(&self) -> String {
-        "G2 transition systems (<=4 states incl. array states, <=3 inputs, init chains reading earlier states, const states, states without a next function (in half of the systems; they keep their value) at any position among the states, shared sub-terms; widths <= 34 bits; no div/rem, no array equality and no multi-word values because the evaluator does not implement / mis-implements them, which is C06 territory) x operation histories of 5..60 operations {init(Zero|Random(seed)), set(input), step, take_snapshot, restore_snapshot(any earlier id, repeatedly, out of order), re-init}; after EVERY operation every root expression, every state/input symbol and up to 6 inner nodes are read through Simulator::get and compared with the reference simulator R3. Random init: free values are read back (seed-defined), states with init must equal their init expression, and a fresh interpreter with the same seed must give the same values. distinct_nontrivial = distinct (system, history) pairs with at least one step and one input change.".into()
+        "G2 transition systems (<=4 states incl. array states, <=3 inputs, init chains reading earlier states, const states, states without a next function (in half of the systems; they keep their value) at any position among the states, shared sub-terms; widths up to 131 bits (a third of the systems use multi-word values; multiplications wider than 128 bits are not generated); no div/rem and no array equality because the evaluator does not implement / mis-implements them, which is C06 territory) x operation histories of 5..60 operations {init(Zero|Random(seed)), set(input), step, take_snapshot, restore_snapshot(any earlier id, repeatedly, out of order), re-init}; after EVERY operation every root expression, every state/input symbol and up to 6 inner nodes are read through Simulator::get and compared with the reference simulator R3. Random init: free values are read back (seed-defined), states with init must equal their init expression, and a fresh interpreter with the same seed must give the same values. distinct_nontrivial = distinct (system, history) pairs with at least one step and one input change.".into()
     }
     fn assumptions(&self) -> Vec<String> {
         vec![
@@ -63,10 +63,10 @@ impl Check for C07 {
         cfg.array_inputs = false;
         cfg.max_state_bits = 16;
         cfg.max_input_bits = 8;
-        cfg.max_bv_width = *rng.pick(&[4u32, 4, 8, 32]);
+        cfg.max_bv_width = *rng.pick(&[4u32, 4, 8, 32, 65, 129]);
         if cfg.max_bv_width > 8 {
-            cfg.max_state_bits = 100;
-            cfg.max_input_bits = 70;
+            cfg.max_state_bits = 100 * cfg.max_bv_width / 32;
+            cfg.max_input_bits = 70 * cfg.max_bv_width / 32;
         }
         let gs = gen_system(&mut rng, &mut ctx, &cfg, "");
         let sys = gs.sys;
